@@ -985,6 +985,16 @@ def process_commandline(out: OutputBuffer, args: List[str]) -> 'AuditConf':  # p
         # Strip out whitespace from each line in target file, and skip empty lines.
         aconf.target_list = [target.strip() for target in aconf.target_list if target.strip() != ""]
 
+        # Reject invalid ports now, before any target is scanned (otherwise the error would surface in a worker thread in the middle of the run).
+        for target in aconf.target_list:
+            try:
+                _, target_port = Utils.parse_host_and_port(target, default_port=port)
+            except ValueError:
+                target_port = -1
+            if target_port < 1 or target_port > 65535:
+                out.fail("port must be greater than 0 and less than 65535: {}".format(target), write_now=True)
+                sys.exit(exitcodes.UNKNOWN_ERROR)
+
     # If a policy file was provided, validate it.
     if (aconf.policy_file is not None) and (aconf.make_policy is False):
 
